@@ -108,8 +108,22 @@ def do_dispatch(env, c):
     log = []
     rs = {}
 
-    def callback(i, fn):
+    deliveries = []      # the NetAddr object made for each dispatched message (one per message): its identity numbers the delivery
+
+    def act(a):
+        r = rs.get(a['i'])
+        if r is not None:
+            getattr(r, a['op'])()       # free / disable / enable, from inside the callback
+
+    def callback(i, fn, beh):
+        """logging callback scripted by beh: do beh['acts'], raise on the beh['rk']-th invocation"""
+        count = [0]
+
         def cb(msg, time, addr, port):
+            count[0] += 1
+            if not any(addr is x for x in deliveries):
+                deliveries.append(addr)
+            d = 1 + [k for k, x in enumerate(deliveries) if x is addr][0]
             toks = []
             for p in msg[1:]:
                 oscrt.project_param(p, toks)
@@ -118,7 +132,11 @@ def do_dispatch(env, c):
                         'src': {'h': HOSTID.get(addr.hostname, 0),
                                 'p': udp.sym.get((addr.hostname, addr.port), addr.port) if udp else addr.port},
                         'via': env.via.get(port, 0),
-                        'tm': list(tm.to_bytes(8, 'big'))})
+                        'tm': list(tm.to_bytes(8, 'big')), 'd': d})
+            for a in beh['acts']:
+                act(a)
+            if beh['rk'] == count[0]:
+                raise RuntimeError('scripted callback fault (responder %d, invocation %d)' % (i, count[0]))
         return cb
 
     ev = []
@@ -136,9 +154,9 @@ def do_dispatch(env, c):
                 kw = dict(arg_template=template(e['tmpl']))
                 rp = env.ports[e['rport']] if e['rport'] else None
                 if e['kind'] == 'matching':
-                    r = OscFunc.matching(callback(i, 0), path, src, rp, **kw)
+                    r = OscFunc.matching(callback(i, 0, e['beh']), path, src, rp, **kw)
                 else:
-                    r = OscFunc(callback(i, 0), path, src, rp, **kw)
+                    r = OscFunc(callback(i, 0, e['beh']), path, src, rp, **kw)
                 rs[i] = r
                 if e.get('os'):
                     r.one_shot()
@@ -151,7 +169,7 @@ def do_dispatch(env, c):
             elif op == 'oneshot':
                 rs[e['i']].one_shot()
             elif op == 'setfunc':
-                rs[e['i']].func = callback(e['i'], e['fn'])
+                rs[e['i']].func = callback(e['i'], e['fn'], e['beh'])
             elif op == 'setperm':
                 rs[e['i']].permanent = bool(e['b'])
             elif op == 'cmdperiod':
@@ -165,6 +183,7 @@ def do_dispatch(env, c):
                     oi = main._osc_interface
                     dg = bytes((oi._build_msg(0.0, py) if v['t'] == 'm' else oi._build_bundle(0.0, py)).dgram)
                 del log[:]
+                del deliveries[:]
                 if udp:
                     out = udp.deliver(dg, (e['src']['h'], e['src']['p']), 20.0, port=env.ports[e['via']])
                 else:
